@@ -224,6 +224,8 @@ struct FnDirective {
     retain_captures: Vec<(String, String)>,
     retain_clauses: Vec<String>,
     slots: Vec<(String, String)>,
+    spawn_body: bool,
+    nodecreases: bool,
 }
 
 struct Hint {
@@ -408,11 +410,74 @@ fn main() {
                     }
                 }
             }
-            let lit = lit.unwrap_or_else(|| die(&format!("LOST ANCHOR: regex static {} not found / not a lazy_regex! literal", parts[1])));
+            let lit = match lit {
+                Some(l) => l,
+                None => {
+                    // the static is gone: nothing to generate (code that still names it will not compile -> undecided)
+                    out.push(&format!("// regex static {} no longer present in {}: its specification is left uninterpreted", parts[1], parts[0]));
+                    out.push(&format!("pub uninterp spec fn {}_matches(s: Seq<char>) -> bool;", parts[1]));
+                    i += 1;
+                    continue;
+                }
+            };
             let txt = regexgen::generate(&parts[1], &lit).unwrap_or_else(|e| die(&format!("regex {}: {e}", parts[1])));
             out.push(txt.trim_end());
             *rewrite_counts.entry("R9".into()).or_default() += 1;
             report_items.push(serde_json::json!({"file": parts[0], "item": parts[1], "regex": lit}));
+            i += 1;
+        } else if let Some(rest) = t.strip_prefix("//@autofn ") {
+            // a function the extracted bodies call but no contract names (typically a helper introduced by a change):
+            // extracted with the empty contract, so its callers are checked against "returns something"
+            let (parts, opts) = parse_kv(rest);
+            let want = parts[0].clone();
+            let mut hit: Option<(String, String)> = None;
+            let mut fnames: Vec<String> = files.keys().cloned().collect();
+            fnames.sort();
+            for fname in fnames {
+                let f = &files[&fname];
+                for it in &f.items {
+                    match it {
+                        Item::Fn(func) if func.sig.ident == want.as_str() => hit = Some((fname.clone(), "-".to_string())),
+                        Item::Impl(im) => {
+                            for ii in &im.items {
+                                if let ImplItem::Fn(func) = ii {
+                                    if func.sig.ident == want.as_str() && !cfg_is_false(&func.attrs) {
+                                        let ty = type_last_ident(&im.self_ty);
+                                        let sel = match &im.trait_ {
+                                            Some((_, p, _)) => format!("{} for {}", norm(&p.to_token_stream().to_string()), ty),
+                                            None => ty,
+                                        };
+                                        hit = Some((fname.clone(), sel));
+                                    }
+                                }
+                            }
+                        }
+                        _ => {}
+                    }
+                    if hit.is_some() {
+                        break;
+                    }
+                }
+                if hit.is_some() {
+                    break;
+                }
+            }
+            let (fname, sel) = hit.unwrap_or_else(|| die(&format!("autofn: `{want}` not found in the unit's source files")));
+            let d = FnDirective {
+                file: fname.clone(),
+                selector: sel,
+                name: want.clone(),
+                ret_name: "r".into(),
+                props: opts.get("props").map(|s| s.split_whitespace().map(|x| x.to_string()).collect()).unwrap_or_default(),
+                nocanary: true,
+                ..Default::default()
+            };
+            let mut fmaps = maps.clone();
+            if let Some(fr) = file_renames.get(&fname) {
+                fmaps.extend(fr.iter().cloned());
+            }
+            let f = &files[&fname];
+            emit_fn(&noop, f, &d, &fmaps, &method_maps, &mut out, &mut report_fns, &mut rewrite_counts);
             i += 1;
         } else if let Some(rest) = t.strip_prefix("//@mapmethod ") {
             let (a, b) = rest.split_once("=>").unwrap_or_else(|| die("bad //@mapmethod"));
@@ -604,6 +669,8 @@ fn main() {
                 guards: opts.get("guards").map(|s| s.split_whitespace().map(|x| x.to_string()).collect()).unwrap_or_default(),
                 retain_captures: opts.get("retain_captures").map(|s| s.split(';').filter_map(|x| x.split_once(':').map(|(a, b)| (a.trim().to_string(), b.trim().to_string()))).collect()).unwrap_or_default(),
                 slots: opts.get("slots").map(|s| s.split_whitespace().filter_map(|x| x.split_once(':').map(|(a, b)| (a.to_string(), b.to_string()))).collect()).unwrap_or_default(),
+                spawn_body: opts.contains_key("spawn_body"),
+                nodecreases: opts.contains_key("nodecreases"),
                 mutparams: opts.get("mutparams").map(|s| s.split_whitespace().map(|x| x.to_string()).collect()).unwrap_or_default(),
                 ..Default::default()
             };
@@ -849,6 +916,28 @@ fn emit_fn(
         impl_header = format!("impl{} {}", kept_ts, self_ty.to_token_stream());
     }
 
+    // R14: a fn whose only statement is `tokio::spawn(async move { B });` is verified as `async fn` with body B
+    let mut func = func;
+    if d.spawn_body {
+        let mut inner: Option<Block> = None;
+        if func.block.stmts.len() == 1 {
+            if let Stmt::Expr(Expr::Call(c), _) = &func.block.stmts[0] {
+                if norm(&c.func.to_token_stream().to_string()) == "tokio::spawn" && c.args.len() == 1 {
+                    if let Expr::Async(a) = &c.args[0] {
+                        inner = Some(a.block.clone());
+                    }
+                }
+            }
+        }
+        match inner {
+            Some(b) => {
+                func.block = b;
+                func.sig.asyncness = Some(Default::default());
+                rw.log.push("R14 tokio::spawn(async move {..}) body verified as an async fn".into());
+            }
+            None => die(&format!("R14: {} is not a single tokio::spawn(async move {{..}})", d.name)),
+        }
+    }
     // signature
     let is_async = func.sig.asyncness.is_some();
     let mut sig = func.sig.clone();
@@ -1199,10 +1288,10 @@ fn emit_fn(
                     }
                 } else {
                     let expr = rest.trim_end_matches(',');
-                    body[at] = format!("{} => {{ /*vxhint*/", &l[..p]);
+                    body[at] = format!("{} => {{ /*vxarm*/", &l[..p]);
                     let mut ins: Vec<String> = h.lines.iter().map(|x| format!("{x} /*vxhint*/")).collect();
                     ins.push(format!("{expr} /*vxarm*/"));
-                    ins.push("} /*vxhint*/".to_string());
+                    ins.push("} /*vxarm*/".to_string());
                     for (j, hl) in ins.into_iter().enumerate() {
                         body.insert(at + 1 + j, hl);
                     }
@@ -1213,7 +1302,7 @@ fn emit_fn(
                 // the anchored statement is the value of a one-line match arm: open a block around it
                 let p = arm_pos.unwrap();
                 let expr = l[p + 4..].trim_end().trim_end_matches(',').to_string();
-                body[at] = format!("{} => {{ /*vxhint*/", &l[..p]);
+                body[at] = format!("{} => {{ /*vxarm*/", &l[..p]);
                 let mut ins: Vec<String> = Vec::new();
                 if h.after {
                     ins.push(format!("let __vx_v = {expr}; /*vxarm*/"));
@@ -1223,7 +1312,7 @@ fn emit_fn(
                     ins.extend(h.lines.iter().map(|x| format!("{x} /*vxhint*/")));
                     ins.push(format!("{expr} /*vxarm*/"));
                 }
-                ins.push("} /*vxhint*/".to_string());
+                ins.push("} /*vxarm*/".to_string());
                 for (j, hl) in ins.into_iter().enumerate() {
                     body.insert(at + 1 + j, hl);
                 }
@@ -1239,6 +1328,37 @@ fn emit_fn(
                     body.insert(at + 1 + j, hl);
                 }
                 continue;
+            }
+            if h.after {
+                // a block's tail expression (no `;`): bind it, run the hint, then yield it
+                let mut depth: i64 = 0;
+                let mut e = at;
+                loop {
+                    for c in body[e].chars() {
+                        match c {
+                            '(' | '[' | '{' => depth += 1,
+                            ')' | ']' | '}' => depth -= 1,
+                            _ => {}
+                        }
+                    }
+                    if depth <= 0 || e + 1 >= body.len() {
+                        break;
+                    }
+                    e += 1;
+                }
+                let last = body[e].replace("/*vxarm*/", "").trim_end().to_string();
+                let next_closes = body.get(e + 1).map_or(false, |n| n.trim_start().starts_with('}'));
+                if !last.ends_with(';') && !last.ends_with('}') && !last.ends_with(',') && !last.ends_with('{') && next_closes {
+                    let ind: String = body[at].chars().take_while(|c| c.is_whitespace()).collect();
+                    body[at] = format!("{ind}let __vx_v = {}", body[at].trim_start());
+                    body[e] = format!("{}; /*vxarm*/", body[e].replace("/*vxarm*/", "").trim_end());
+                    let mut ins: Vec<String> = h.lines.iter().map(|x| format!("{x} /*vxhint*/")).collect();
+                    ins.push(format!("{ind}__vx_v /*vxarm*/"));
+                    for (j, hl) in ins.into_iter().enumerate() {
+                        body.insert(e + 1 + j, hl);
+                    }
+                    continue;
+                }
             }
             let pos = if h.after {
                 let mut depth: i64 = 0;
@@ -1288,6 +1408,9 @@ fn emit_fn(
         }
         if d.trusted {
             target.push("#[verifier::external_body]".into());
+        }
+        if d.nodecreases {
+            target.push("#[verifier::exec_allows_no_decreases_clause]".into());
         }
         if d.noisolation {
             target.push("#[verifier::loop_isolation(false)]".into());
